@@ -490,18 +490,30 @@ pub fn gen_c09(seed: u64, thorough: bool) -> Plan {
     let n_users = if proto == Proto::Shadowsocks && supports_eih(cipher) && g.chance(50) { 2 } else { 0 };
     let config = gen_config(&mut g, proto, cipher, transport, n_users);
     // (clean datagram link under QUIC: with loss the together / alone comparison would be between two different random experiments)
-    let knobs = KnobsPlan::generate(&mut g).for_transport(transport);
-    let n_flows = if g.chance(10) { g.range(9, if thorough { 64 } else { 24 }) } else { g.range(2, 8) } as usize;
+    let mut knobs = KnobsPlan::generate(&mut g).for_transport(transport);
+    // a crowd: many small flows that are all open at the same time for minutes (each exchanges a little, stays silent for
+    // 100 simulated seconds, exchanges a little more) - a flow's handshake and data must not wait for other flows to end
+    let crowd = g.chance(3);
+    if crowd {
+        knobs = KnobsPlan::simple().for_transport(transport);
+    }
+    let n_flows = if crowd { g.range(40, if thorough { 400 } else { 160 }) } else if g.chance(10) { g.range(9, if thorough { 64 } else { 24 }) } else { g.range(2, 8) } as usize;
     let max_bytes = if knobs.sndbuf <= 64 || knobs.read_style == 1 { 2000 } else { 12_000 };
     let mut flows = Vec::new();
     for ix in 0..n_flows {
         let hs = *g.pick(&ALL_HS);
         // endings whose outcome does not hinge on a race with the opposite direction
         let ending = *g.pick(&[Ending::None, Ending::AppAfterAll, Ending::TargetAfterAll]);
-        let mut f = gen_flow(&mut g, ix % 200, hs, ending, max_bytes);
+        let mut f = gen_flow(&mut g, ix % 200, hs, ending, if crowd { 300 } else { max_bytes });
         f.target_ip = [127, 0, 1 + (ix / 200) as u8 + (ix % 200) as u8 % 50, 1 + (ix as u8 % 250)];
         f.target_port = 10_000 + ix as u16;
         f.start_ms = *g.pick(&[0, 0, 0, 1, 3]);
+        if crowd {
+            f.up = vec![Op::Write(g.range(1, 200) as usize), Op::Pause(100_000), Op::Write(g.range(1, 200) as usize)];
+            f.down = vec![Op::Write(g.range(1, 200) as usize)];
+            f.target_waits_for = 1;
+            f.ending = if g.chance(50) { Ending::None } else { Ending::AppAfterAll };
+        }
         flows.push(f);
     }
     Plan { property: "C09".into(), scenario: "independence".into(), seed, net_seed: g.next(), config, knobs, flows, extra: serde_json::Value::Null }
